@@ -96,7 +96,7 @@ type c02App struct {
 func (a c02App) String() string { return fmt.Sprintf("%s@%d=%s", a.sk, a.t, a.val) }
 
 var c02Values = []string{"f1", "f2", "stale", "h1", "h2", "fh1"}
-var c02Times = []int64{21, 20, 19, 15, 14, 11, 10, 9, 4, -1}
+var c02Times = []int64{21, 20, 19, 15, 14, 12, 11, 10, 9, 4, -1} // 12 = head max 20 minus OOO window 8: the window edge itself
 
 func c02Value(kind string) (float64, *histogram.Histogram, *histogram.FloatHistogram, string) {
 	switch kind {
@@ -127,8 +127,12 @@ var c02Pre = map[string][][]c02App{
 	"s1f@10,20":   {{{"s1", 10, "f1"}}, {{"s1", 20, "f1"}}},
 	"s1f@10,20mv": {{{"s1", 10, "f1"}}, {{"s1", 20, "f1"}}}, // + head min valid time raised to 15
 	"s1fh@10":     {{{"s1", 10, "fh1"}}},
+	// a float, then a histogram of each kind on top of it: the series' stale "last float value"
+	// must not take part in duplicate detection at the histogram's timestamp
+	"s1f@10fh@20": {{{"s1", 10, "f1"}}, {{"s1", 20, "fh1"}}},
+	"s1f@10h@20":  {{{"s1", 10, "f1"}}, {{"s1", 20, "h1"}}},
 }
-var c02PreOrder = []string{"empty", "s1f@10", "s1h@10", "s1f@10,20", "s1f@10,20mv", "s1fh@10"}
+var c02PreOrder = []string{"empty", "s1f@10", "s1h@10", "s1f@10,20", "s1f@10,20mv", "s1fh@10", "s1f@10fh@20", "s1f@10h@20"}
 
 type c02Case struct {
 	Pre   string   `json:"pre"`
@@ -355,7 +359,7 @@ func TestVerifC02(t *testing.T) {
 	}
 	var red []c02App
 	for _, a := range alpha {
-		if a.sk == "s1" && a.val != "h2" && a.val != "fh1" && a.t != 4 && a.t != 14 && a.t != 15 && a.t != -1 {
+		if a.sk == "s1" && a.val != "h2" && a.val != "fh1" && a.t != 4 && a.t != 14 && a.t != 15 && a.t != -1 && a.t != 9 {
 			red = append(red, a)
 		}
 	}
